@@ -190,6 +190,16 @@ impl Ns {
             _ => {}
         }
     }
+    /// the script can be satisfied by its time conditions alone (no signature needed)
+    pub fn keyless(&self) -> bool {
+        match self {
+            Ns::Pk(_) => false,
+            Ns::All(v) => v.iter().all(|x| x.keyless()),
+            Ns::Any(v) => v.iter().any(|x| x.keyless()),
+            Ns::NofK(n, v) => v.iter().filter(|x| x.keyless()).count() as u32 >= *n,
+            Ns::After(_) | Ns::Before(_) => true,
+        }
+    }
 }
 
 #[derive(Serialize, Deserialize, Clone, Debug, PartialEq, Eq, Hash, PartialOrd, Ord)]
